@@ -519,5 +519,66 @@ impl Oplog {
     @*/
 }
 
+/// a header slot as a reader sees it: region [off, off+4096) of the file, if the file is long enough
+pub open spec fn slot_leader(existing: Seq<u8>, off: int) -> Option<LeaderSpec> {
+    if existing.len() >= off + 4096 { leader_at(existing.subrange(off, off + 4096)) } else { None }
+}
+/// header bits after open, per the JS rules
+pub open spec fn open_bits(existing: Seq<u8>) -> [bool; 2] {
+    let v1 = slot_leader(existing, 0); let v2 = slot_leader(existing, 4096);
+    if v1 is Some && v2 is Some { [v1->Some_0.hbit, v2->Some_0.hbit] }
+    else if v1 is Some { [v1->Some_0.hbit, v1->Some_0.hbit] }
+    else if v2 is Some { [!v2->Some_0.hbit, v2->Some_0.hbit] }
+    else { [false, false] }
+}
+/// which slot holds the live header: both valid and bits equal -> first, both valid and different -> second, else the valid one
+pub open spec fn live_slot(existing: Seq<u8>) -> int {
+    let v1 = slot_leader(existing, 0); let v2 = slot_leader(existing, 4096);
+    if v1 is Some && v2 is Some { if v1->Some_0.hbit == v2->Some_0.hbit { 0 } else { 4096 } }
+    else if v1 is Some { 0 } else { 4096 }
+}
+
+impl Oplog {
+    /*@ fn src/oplog/mod.rs Oplog::open ; noisolation
+    tags: C01 C02 C06 C07 C12
+    result: r
+    requires:
+        info is Some ==> info->Some_0.data is Some && info->Some_0.data->Some_0@.len() <= 0xffff_ffff_ffff
+    ensures:
+        info is None ==> r is Ok && r->Ok_0 is Left && r->Ok_0->Left_0.store == Store::Oplog
+            && r->Ok_0->Left_0.info_type == StoreInfoType::Content && r->Ok_0->Left_0.index == 0 && r->Ok_0->Left_0.length is None,
+        // C07: a valid header slot is enough to open, whatever the other slot holds
+        info is Some && r is Ok ==> r->Ok_0 is Right,
+        info is Some && r is Ok && (slot_leader(info->Some_0.data->Some_0@, 0) is Some || slot_leader(info->Some_0.data->Some_0@, 4096) is Some)
+            ==> r->Ok_0->Right_0.oplog.header_bits == open_bits(info->Some_0.data->Some_0@)
+                && r->Ok_0->Right_0.infos_to_flush@.len() == 0
+    sub `OplogSlot::FirstHeader as usize\.\.OplogSlot::SecondHeader as usize` => `(vp_slot_value(&OplogSlot::FirstHeader) as usize)..(vp_slot_value(&OplogSlot::SecondHeader) as usize)`
+    sub `OplogSlot::SecondHeader as usize\.\.OplogSlot::Entries as usize` => `(vp_slot_value(&OplogSlot::SecondHeader) as usize)..(vp_slot_value(&OplogSlot::Entries) as usize)`
+    sub `OplogSlot::Entries as usize` => `(vp_slot_value(&OplogSlot::Entries) as usize)`
+    sub `byte_lengths\.iter\(\)\.sum\(\)` => `vp_sum_u64(&byte_lengths)`
+    before `let mut entries: Vec<Entry> = Vec::new();`:
+        let ghost region0 = entries_buff@;
+    loop 1:
+        invariant
+            entries@.len() == partials@.len(), entries@.len() == byte_lengths@.len(),
+            region0.len() <= 0xffff_ffff_ffff,
+            spec_sum_u64(byte_lengths@) + entries_buff@.len() == region0.len()
+        decreases entries_buff@.len()
+    loop 2:
+        invariant
+            entries@.len() == partials@.len(), entries@.len() == byte_lengths@.len(),
+            spec_sum_u64(byte_lengths@) <= 0xffff_ffff_ffff
+        decreases partials@.len()
+    before `// Remove all trailing partial entries`:
+        proof { lemma_sum_u64_nonneg(byte_lengths@); }
+    after `byte_lengths.pop();`:
+        proof { lemma_sum_u64_nonneg(byte_lengths@); }
+    before `byte_lengths.push((entries_buff.len() - res.1.len()) as u64);`:
+        let ghost bl0 = byte_lengths@;
+    after `byte_lengths.push((entries_buff.len() - res.1.len()) as u64);`:
+        assert(byte_lengths@.drop_last() =~= bl0);
+    @*/
+}
+
 } // verus!
 fn main() {}
